@@ -199,6 +199,61 @@ func setLoop(p *Prog, r *Report, rule string) (*FuncInfo, *Flat, *ast.RangeStmt)
 			}
 			return is(e, 0)
 		}
+		// (an error variable that is given a certainly non-nil error on this path - the sentinel a helper answers,
+		// bound to the caller's err - does not take the "err == nil" edge afterwards)
+		for round := 0; round < 3; round++ {
+			cur, curReach := g, reach
+			g2 := cur.WithoutEdges(func(from *GNode, e Edge) bool {
+				if !from.IsCond || !curReach[from.ID] {
+					return false
+				}
+				x := isNilCompare(info, from.Ast.(ast.Expr))
+				if x == nil {
+					return false
+				}
+				o := objOf(info, x)
+				if o == nil || !isErrorType(o.Type()) {
+					return false
+				}
+				// the definitions that reach the test on this path (inside the region), through copies
+				var nonNilAt func(node int, o types.Object, depth int) bool
+				nonNilAt = func(node int, o types.Object, depth int) bool {
+					n, all := 0, true
+					for _, d := range cur.ReachingDefs(node, o) {
+						if !curReach[d.Node] {
+							continue
+						}
+						n++
+						switch {
+						case d.Rhs == nil:
+							all = false
+						case certainlyNonNilError(info, d.Rhs):
+						default:
+							ro := objOf(info, d.Rhs)
+							if ro == nil || depth > 3 || !nonNilAt(d.Node, ro, depth+1) {
+								all = false
+							}
+						}
+					}
+					return n > 0 && all
+				}
+				if !nonNilAt(from.ID, o, 0) {
+					return false
+				}
+				be := ast.Unparen(from.Ast.(ast.Expr)).(*ast.BinaryExpr)
+				nilLabel := 1 // x == nil: the true edge is the nil edge
+				if be.Op == token.NEQ {
+					nilLabel = 2
+				}
+				return e.Label == nilLabel
+			})
+			nr := g2.Reach(start, nil, nil)
+			same := len(nr) == len(reach)
+			g, reach = g2, nr
+			if same {
+				break
+			}
+		}
 		for _, id := range g.ReturnNodes() {
 			if !reach[id] {
 				continue
@@ -208,7 +263,37 @@ func setLoop(p *Prog, r *Report, rule string) (*FuncInfo, *Flat, *ast.RangeStmt)
 				continue
 			}
 			last := rs.Results[len(rs.Results)-1]
-			r.Check(noSpace(last), rule, kStoreSet+"#no-directory-left-is-ErrNoFreeSpace", p.pos(rs), "with no directory left Set fails with ErrNoFreeSpace",
+			// (the helper that holds the loop answers the sentinel, its caller returns the variable it was bound to)
+			var viaVar func(e ast.Expr, depth int) bool
+			viaVar = func(e ast.Expr, depth int) bool {
+				if noSpace(e) {
+					return true
+				}
+				o := objOf(info, e)
+				if o == nil || depth > 4 {
+					return false
+				}
+				n, all := 0, true
+				for _, gn := range g.Nodes {
+					if !reach[gn.ID] {
+						continue
+					}
+					as, isAs := gn.Ast.(*ast.AssignStmt)
+					if !isAs || len(as.Lhs) != len(as.Rhs) {
+						continue
+					}
+					for i, l := range as.Lhs {
+						if objOf(info, l) == o {
+							n++
+							if !viaVar(as.Rhs[i], depth+1) {
+								all = false
+							}
+						}
+					}
+				}
+				return n > 0 && all
+			}
+			r.Check(viaVar(last, 0), rule, kStoreSet+"#no-directory-left-is-ErrNoFreeSpace", p.pos(rs), "with no directory left Set fails with ErrNoFreeSpace",
 				"when the iterator reports that no directory is left Set returns "+types.ExprString(last)+", an error that is not ErrNoFreeSpace: the caller cannot tell a full store from a broken one (over gRPC it arrives as ErrUnknown)")
 		}
 	}
